@@ -66,6 +66,10 @@ func (swisscard) Generate(r *rand.Rand, o Opts) *Statement {
 		}
 		line := csvLine(',', dmy(day, "."), dmy(day+cal.Day(r.Intn(3)), "."), card, a, csvField(desc, ',', true), city, state, zip, ref, flag, mcc)
 		rows = append(rows, row{day, line, e})
+		if r.Intn(12) == 0 {
+			rows = append(rows, row{day, line, e}) // the same purchase twice: two rows, two transactions
+			st.feature("duplicate-row")
+		}
 	}
 	for i := len(rows) - 1; i >= 0; i-- {
 		fb.line(rows[i].line)
@@ -74,7 +78,7 @@ func (swisscard) Generate(r *rand.Rand, o Opts) *Statement {
 		st.Txns = append(st.Txns, Txn{Date: rw.day, Import: eff("CHF", rw.e), Row: i, Note: "booking"})
 		st.RowNotes = append(st.RowNotes, fmt.Sprintf("%s %s CHF", rw.day, rw.e.Fixed()))
 	}
-	st.BookingRows = n
+	st.BookingRows = len(rows)
 	st.File = []byte(fb.String())
 	return st
 }
